@@ -150,6 +150,11 @@ class Interp:
         if prev is not None:
             prev_state = dict(ident=id(prev), id=prev.executor_id, broken=prev._flags.broken is not None,
                               shutdown=prev._flags.shutdown, max_workers=prev._max_workers)
+            # kept apart from the event payload: also available when the call raises (no reference to the thread
+            # object is kept: its lifetime decides when loky's weak-keyed wake-up registry drops its entry)
+            self.obs.data.setdefault("reusable_at_call", []).append(dict(
+                thread=th, step=rt.RT.sched.steps, broken=prev_state["broken"], shutdown=prev_state["shutdown"],
+                mgr_alive=self._thread_running(prev._executor_manager_thread)))
         try:
             ex = get_reusable_executor(**kw)
         finally:
@@ -203,6 +208,14 @@ class Interp:
                     pids=sorted(procs), alive=sorted(p for p in procs if k.procs[p].alive),
                     is_alive_api=sorted(pid for pid, p in list(procs.items()) if p._popen is not None
                                         and p._popen.returncode is None))
+
+    @staticmethod
+    def _thread_running(t):
+        """is this threading.Thread still running - read from the scheduler, without a simulated operation."""
+        if t is None or t.ident is None:
+            return False
+        task = rt.RT.sched.by_ident.get(t.ident)
+        return bool(task is not None and task.state != sk.DONE)
 
     def _task(self, th, o):
         ts = dict(o["task"])
